@@ -12,6 +12,9 @@ Sub-checks
               probabilities the mating protocols would use (nself = 0 up to 8 markers, nself 1..2 for <= 4 markers).
   genic       genic variance classes (+ the two-way factory) vs. the enumeration with linkage ignored.
   uc          usefulness-criterion matrices of the four UC mate-selection problem classes.
+  reuse       histories on ONE factory / model / genotype-matrix object: requests through every entry point interleaved
+              with changes made through public setters and in-place methods; every answer vs. the enumeration for the
+              objects' content at the time of the request (no stale or remembered results).
   util        ``rprob_filial``, ``cov_D1s``, ``cov_D2s``, ``cov_D1st``, ``cov_D2st`` vs. enumerated pedigrees.
 """
 import itertools
@@ -71,6 +74,10 @@ ASSUMPTIONS = [
     "ThreeWayDHCross configuration and UC problems with unique_parents=False read exactly those entries)",
     "progeny genic covariance classes (pybrops/model/pcvmat/*Genic*) are not anchors of C12 and cannot be "
     "instantiated (abstract methods missing); they are not exercised",
+    "reuse: a request is answered for the content the genomic model and the genotype matrix have at the moment of the "
+    "request; changes made between two requests through public setters (u_a, beta, mat, vrnt_genpos), in-place methods "
+    "(reorder_taxa, sort_taxa, group_taxa, remove_taxa) or writes into the arrays these objects expose are changes of "
+    "the input ('for all sets of parents and marker effects ... all matrix classes and their factories')",
     "comparison tolerance 1e-11 * S + 1e-300 with S = 4 * (sum_i |u_i^a|) * (sum_i |u_i^b|), the sum of absolute values of all terms",
 ]
 
@@ -259,6 +266,77 @@ def util_case(draw):
                        min_size=1, max_size=5))
     return {"r": rs, "nself": draw(st.sampled_from([0, 1, 2, 3, 4, 6, 9, "inf"])), "t": draw(st.integers(0, 5)),
             "neg": draw(st.integers(-5, -1)), "shape2d": draw(st.booleans())}
+
+
+# ---- histories: the same factory / model / genotype objects used again after being changed through their public API ----
+_VIAS_FCTY = ["fcty_gmod_plain", "fcty_gmod_plain", "fcty_gmod_plain", "fcty_gmod_mem", "fcty_algmod", "fcty_algmod",
+              "cls_gmod", "cls_algmod", "uc", "uc"]
+_VIAS_GENIC_FCTY = ["fcty_gmod_plain", "fcty_gmod_plain", "fcty_gmod_mem", "fcty_algmod", "cls_gmod", "cls_algmod"]
+_VIAS_CLS = ["cls_gmod", "cls_algmod"]
+_REUSE_NMAX = {"two": 4, "three": 3, "four": 3, "dihybrid": 4}
+
+
+@st.composite
+def _reuse_mod(draw, scheme, p, t, nmax, order_only=False):
+    if order_only:
+        name = draw(st.sampled_from(["reorder_taxa", "reorder_taxa", "reorder_taxa", "sort_taxa", "group_taxa"]))
+    else:
+        name = draw(st.sampled_from(["set_u", "set_u", "scale_u", "poke_u", "set_beta", "reorder_taxa", "reorder_taxa",
+                                     "sort_taxa", "group_taxa", "set_mat", "poke_mat", "remove_taxa", "set_genpos", "nself"]))
+    if name == "set_u":
+        return [name, [[draw(_eff) for _ in range(t)] for _ in range(p)]]
+    if name == "scale_u":
+        return [name, draw(st.sampled_from([-1.0, 2.0, 0.5, 1e-3, 3.0]))]
+    if name == "poke_u":
+        return [name, draw(st.integers(0, 50)), draw(st.integers(0, 50)), draw(_eff)]
+    if name == "set_beta":
+        return [name, [draw(st.sampled_from([0.0, 1.5, -7.25, 100.0])) for _ in range(t)]]
+    if name == "reorder_taxa":
+        return [name, draw(st.lists(st.integers(0, 9), min_size=nmax, max_size=nmax))]
+    if name == "set_mat":
+        return [name, draw(st.integers(0, 50)), draw(st.lists(st.integers(0, 1), min_size=p, max_size=p)),
+                draw(st.lists(st.integers(0, 1), min_size=p, max_size=p))]
+    if name == "poke_mat":
+        return [name, draw(st.integers(0, 50)), draw(st.integers(0, 50)), draw(st.booleans())]
+    if name == "remove_taxa":
+        return [name, draw(st.integers(0, 50))]
+    if name == "set_genpos":
+        return [name, draw(st.sampled_from([0.0, 0.3, 1.7])), [draw(_inc) for _ in range(p)]]
+    if name == "nself":
+        return [name, draw(st.sampled_from([0, 1, 2, 3]))]
+    return [name]
+
+
+@st.composite
+def reuse_case(draw):
+    family = draw(st.sampled_from(["vmat", "vmat", "vmat", "genic", "pcvmat"]))
+    if family == "vmat":
+        scheme = draw(st.sampled_from(["two", "two", "three", "four", "dihybrid"]))
+        vias = _VIAS_FCTY
+    elif family == "genic":
+        scheme = draw(st.sampled_from(["two", "two", "two", "dihybrid", "three", "four"]))
+        vias = _VIAS_GENIC_FCTY if scheme == "two" else _VIAS_CLS
+    else:
+        scheme = draw(st.sampled_from(SCHEMES))
+        vias = _VIAS_CLS
+    nmax = _REUSE_NMAX[scheme]
+    pop = draw(population(scheme, nmax, 5 if scheme == "four" else 6, tmax=2))
+    p, t = len(pop["genpos"]), len(pop["beta"])
+    primary = draw(st.sampled_from(vias))
+    rounds = []
+    for r in range(draw(st.integers(2, 4))):
+        via = primary if draw(st.integers(0, 3)) != 0 else draw(st.sampled_from(vias))
+        nmods = 0 if r == 0 else draw(st.sampled_from([0, 1, 1, 1, 2, 2, 3]))
+        order_only = draw(st.integers(0, 3)) == 0          # only the order of the taxa changes before this request
+        rounds.append({"mods": [draw(_reuse_mod(scheme, p, t, nmax, order_only)) for _ in range(nmods)], "via": via,
+                       "mem": draw(_mem)})
+    pop.update({
+        "family": family, "rounds": rounds, "nself": draw(st.sampled_from([0, 0, 1, 2, 3, "inf"])),
+        "nmating": draw(st.integers(1, 5)), "nprogeny": draw(st.integers(1, 80)),
+        "problem": draw(st.sampled_from(["subset", "real", "binary", "integer"])),
+        "unique_parents": draw(st.booleans()), "upper_percentile": draw(st.sampled_from([0.1, 0.05, 0.5, 0.01])),
+    })
+    return pop
 
 
 # =====================================================================================================================
@@ -593,23 +671,14 @@ def _intensity(pct):
     return nd.pdf(nd.inv_cdf(1.0 - pct)) / pct
 
 
-def check_uc(case, ctx):
-    scheme = case["scheme"]
-    nself = int(case["nself"])
-    b = build(case)
+def _uc_problem(scheme, b, fcty, gm, prob_kind, uniq, ncross, nprogeny, nself, pct):
+    """(problem, expected cross map) of one UC problem class on the parents/model of ``b``; None if no cross is possible"""
     k = NPARENT[scheme]
-    _labels_common(ctx, case, b)
-    ctx.label("problem=%s" % case["problem"])
-    ctx.label("unique_parents=%s" % case["unique_parents"])
-    ctx.label("cancelling_effects_at_coincident_markers", bool(case.get("cancelling")))
-    uniq = bool(case["unique_parents"])
     comb = itertools.combinations if uniq else itertools.combinations_with_replacement
     expect_xmap = [list(c) for c in comb(range(b.n), k)]
     if not expect_xmap:
-        ctx.label("no_cross_possible")
-        return
+        return None
     nx = len(expect_xmap)
-    prob_kind = case["problem"]
     cls = UCPROB[prob_kind]
     if prob_kind == "subset":
         nd, ds, lo, hi = min(2, nx), numpy.arange(nx), numpy.zeros(min(2, nx)), numpy.full(min(2, nx), float(nx - 1))
@@ -619,16 +688,25 @@ def check_uc(case, ctx):
         nd, ds, lo, hi = nx, None, numpy.zeros(nx, dtype=int), numpy.ones(nx, dtype=int)
         ds = numpy.stack([lo, hi])
     pr = cls.from_pgmat_gpmod(
-        nparent=k, ncross=case["ncross"], nprogeny=case["nprogeny"], nself=nself,
-        upper_percentile=float(case["upper_percentile"]), vmatfcty=FCTY[scheme](), gmapfn=HaldaneMapFunction(),
+        nparent=k, ncross=ncross, nprogeny=nprogeny, nself=nself,
+        upper_percentile=float(pct), vmatfcty=fcty, gmapfn=gm,
         unique_parents=uniq, pgmat=b.pgmat, gpmod=b.algmod, ndecn=nd, decn_space=ds, decn_space_lower=lo,
         decn_space_upper=hi, nobj=b.t)
+    return pr, expect_xmap
+
+
+def _uc_verify(ctx, scheme, b, pr, expect_xmap, nself, pct, beta, pre="", where=""):
+    """usefulness criterion of every cross of the problem vs. parental mean + i * sqrt(enumerated variance)"""
+    k = NPARENT[scheme]
+    nx = len(expect_xmap)
     uc = pr.ucmat
     xmap = numpy.asarray(pr.decn_space_xmap)
-    ctx.check(uc.shape == (nx, b.t), "uc.shape", lambda: "%s expected %s" % (uc.shape, (nx, b.t)))
-    ctx.check(sorted(xmap.tolist()) == sorted(expect_xmap), "uc.xmap", lambda: "%s" % xmap.tolist())
-    inten = _intensity(float(case["upper_percentile"]))
-    gv = numpy.array([[case["beta"][a] + math.fsum(float(b.geno[0, i, j] + b.geno[1, i, j]) * b.u[j, a] for j in range(b.p))
+    ctx.check(uc.shape == (nx, b.t), pre + "uc.shape", lambda: "%s expected %s%s" % (uc.shape, (nx, b.t), where))
+    ctx.check(sorted(xmap.tolist()) == sorted(expect_xmap), pre + "uc.xmap", lambda: "%s%s" % (xmap.tolist(), where))
+    if uc.shape != (nx, b.t) or xmap.shape != (nx, k):
+        return False
+    inten = _intensity(float(pct))
+    gv = numpy.array([[beta[a] + math.fsum(float(b.geno[0, i, j] + b.geno[1, i, j]) * b.u[j, a] for j in range(b.p))
                        for a in range(b.t)] for i in range(b.n)])
     epgc = EPGC[scheme]
     nontriv = False
@@ -640,7 +718,7 @@ def check_uc(case, ctx):
         tolv = RTOL * numpy.diag(b.S) + ATOL
         lo_ = pmean + inten * numpy.sqrt(numpy.maximum(var - tolv, 0.0))
         hi_ = pmean + inten * numpy.sqrt(numpy.maximum(var, 0.0) + tolv)
-        slack = 1e-9 * (numpy.abs(pmean) + inten * numpy.sqrt(numpy.maximum(var, 0.0)) + numpy.abs(b.u).sum(0) + abs(max(case["beta"], key=abs)))
+        slack = 1e-9 * (numpy.abs(pmean) + inten * numpy.sqrt(numpy.maximum(var, 0.0)) + numpy.abs(b.u).sum(0) + abs(max(beta, key=abs)))
         seg = [i for i in range(b.p) if slots[:, i].min() != slots[:, i].max()]
         # traits whose true variance is zero (up to rounding) although the parents differ at markers with effects:
         # the blocked sum may come out as -1e-17 and sqrt() turns the usefulness criterion into NaN (F-C12-f)
@@ -654,15 +732,246 @@ def check_uc(case, ctx):
         if _rep(scheme, tup) and bool((var > tolv).any()):
             if ctx.known(K_DIAG, True):
                 continue
-            ctx.check(bool(inside[ok].all()), "uc.value.repeated_last_pair",
-                      lambda: "%s%s: uc %s expected %s (mean %s var %s i %g)" % (scheme, list(tup), uc[row].tolist(), (pmean + inten * numpy.sqrt(numpy.maximum(var, 0.0))).tolist(), pmean.tolist(), var.tolist(), inten))
+            ctx.check(bool(inside[ok].all()), pre + "uc.value.repeated_last_pair",
+                      lambda: "%s%s: uc %s expected %s (mean %s var %s i %g)%s" % (scheme, list(tup), uc[row].tolist(), (pmean + inten * numpy.sqrt(numpy.maximum(var, 0.0))).tolist(), pmean.tolist(), var.tolist(), inten, where))
             continue
-        ctx.check(bool(numpy.isfinite(uc[row][ok]).all()), "uc.finite", lambda: "%s%s: %s (enumerated variance %s)" % (scheme, list(tup), uc[row].tolist(), var.tolist()))
-        ctx.check(bool(inside[ok].all()), "uc.value",
-                  lambda: "%s%s nself=%d pct=%r: uc %s expected %s (mean %s var %s i %g)" % (
-                      scheme, list(tup), nself, case["upper_percentile"], uc[row].tolist(),
-                      (pmean + inten * numpy.sqrt(numpy.maximum(var, 0.0))).tolist(), pmean.tolist(), var.tolist(), inten))
+        ctx.check(bool(numpy.isfinite(uc[row][ok]).all()), pre + "uc.finite", lambda: "%s%s: %s (enumerated variance %s)%s" % (scheme, list(tup), uc[row].tolist(), var.tolist(), where))
+        ctx.check(bool(inside[ok].all()), pre + "uc.value",
+                  lambda: "%s%s nself=%d pct=%r: uc %s expected %s (mean %s var %s i %g)%s" % (
+                      scheme, list(tup), nself, pct, uc[row].tolist(),
+                      (pmean + inten * numpy.sqrt(numpy.maximum(var, 0.0))).tolist(), pmean.tolist(), var.tolist(), inten, where))
         nontriv = nontriv or (inten > 0.0 and _linked_informative(scheme, b, tup))
+    return nontriv
+
+
+def check_uc(case, ctx):
+    scheme = case["scheme"]
+    nself = int(case["nself"])
+    b = build(case)
+    _labels_common(ctx, case, b)
+    ctx.label("problem=%s" % case["problem"])
+    ctx.label("unique_parents=%s" % case["unique_parents"])
+    ctx.label("cancelling_effects_at_coincident_markers", bool(case.get("cancelling")))
+    uniq = bool(case["unique_parents"])
+    made = _uc_problem(scheme, b, FCTY[scheme](), HaldaneMapFunction(), case["problem"], uniq, case["ncross"],
+                       case["nprogeny"], nself, case["upper_percentile"])
+    if made is None:
+        ctx.label("no_cross_possible")
+        return
+    pr, expect_xmap = made
+    ctx.nontrivial(_uc_verify(ctx, scheme, b, pr, expect_xmap, nself, case["upper_percentile"], case["beta"]))
+
+
+# =====================================================================================================================
+# reuse: one factory / model / genotype-matrix object used several times, changed through its public API in between
+# =====================================================================================================================
+def _snapshot(pg, alg):
+    """the inputs exactly as they are handed to the library at this moment (read through public attributes)"""
+    b = Built()
+    b.geno = numpy.array(pg.mat, dtype="int8", copy=True)
+    b.n, b.p = b.geno.shape[1], b.geno.shape[2]
+    b.chrgrp = numpy.array(pg.vrnt_chrgrp, copy=True)
+    b.genpos = numpy.array(pg.vrnt_genpos, dtype="float64", copy=True)
+    b.u = numpy.array(alg.u_a, dtype="float64", copy=True)
+    b.t = b.u.shape[1]
+    b.beta = [float(x) for x in numpy.asarray(alg.beta).reshape(-1)]
+    b.taxa = None if pg.taxa is None else numpy.array(pg.taxa, copy=True)
+    b.taxa_grp = None if pg.taxa_grp is None else numpy.array(pg.taxa_grp, copy=True)
+    b.trait = None if alg.trait is None else numpy.array(alg.trait, copy=True)
+    b.pgmat, b.algmod = pg, alg
+    b.rmat = P.rmat_from_genpos(b.chrgrp, b.genpos)
+    b.S = 4.0 * numpy.outer(numpy.abs(b.u).sum(0), numpy.abs(b.u).sum(0))
+    return b
+
+
+def _apply_mod(op, pg, alg, scheme, st_):
+    """one change of the live objects through public setters / in-place methods; returns 'order' (taxa only re-ordered),
+    'value' (expected matrix may change) or 'none'"""
+    name = op[0]
+    n, p = pg.mat.shape[1], pg.mat.shape[2]
+    t = alg.u_a.shape[1]
+    if name == "set_u":
+        alg.u_a = numpy.array(op[1], dtype="float64").reshape(p, t)
+    elif name == "scale_u":
+        alg.u_a = alg.u_a * float(op[1])
+    elif name == "poke_u":
+        alg.u_a[int(op[1]) % p, int(op[2]) % t] = float(op[3])          # write into the array the model exposes
+    elif name == "set_beta":
+        alg.beta = numpy.array([op[1]], dtype="float64")
+    elif name in ("reorder_taxa", "sort_taxa", "group_taxa"):
+        if name == "reorder_taxa" or (pg.taxa is None and pg.taxa_grp is None):
+            keys = list(op[1])[:n] if name == "reorder_taxa" else list(range(n, 0, -1))
+            pg.reorder_taxa(numpy.array(sorted(range(n), key=lambda i: (keys[i], i)), dtype=int))
+        elif name == "sort_taxa":
+            pg.sort_taxa()
+        else:
+            pg.group_taxa()
+        return "order"
+    elif name == "set_mat":
+        m = numpy.array(pg.mat, copy=True)
+        i = int(op[1]) % n
+        m[0, i, :] = op[2]
+        m[1, i, :] = op[3] if scheme == "dihybrid" else op[2]
+        pg.mat = m
+    elif name == "poke_mat":
+        i, j = int(op[1]) % n, int(op[2]) % p
+        if scheme == "dihybrid" and op[3]:
+            pg.mat[0, i, j] = 1 - pg.mat[0, i, j]
+        else:
+            pg.mat[:, i, j] = 1 - pg.mat[:, i, j]                       # inbred parents stay inbred
+    elif name == "remove_taxa":
+        if n <= 2:
+            return "none"
+        pg.remove_taxa(int(op[1]) % n)
+    elif name == "set_genpos":
+        chrgrp = pg.vrnt_chrgrp
+        new, pos = [], 0.0
+        for j in range(p):
+            pos = float(op[1]) if (j == 0 or chrgrp[j] != chrgrp[j - 1]) else pos + float(op[2][j])
+            new.append(pos)
+        pg.vrnt_genpos = numpy.array(new, dtype="float64")
+    elif name == "nself":
+        st_["nself"] = int(op[1])
+    return "value"
+
+
+def _reuse_call(via, family, scheme, pg, alg, fcty, gm, case, nself, mem):
+    """(kind, object) through one entry point, always with the SAME factory / map function / model / genotype objects"""
+    if family == "genic":
+        cls = GENIC[scheme]
+        mem = 1000 if mem is None else mem          # genic classes take an integer chunk size
+        if via == "fcty_gmod_plain":
+            return "genic", fcty.from_gmod(alg, pg, case["nprogeny"])
+        if via == "fcty_gmod_mem":
+            return "genic", fcty.from_gmod(gmod=alg, pgmat=pg, nprogeny=case["nprogeny"], mem=mem)
+        if via == "fcty_algmod":
+            return "genic", fcty.from_algmod(algmod=alg, pgmat=pg, nprogeny=case["nprogeny"], mem=mem)
+        if via == "cls_gmod":
+            if scheme == "two":
+                return "genic", cls.from_gmod(gmod=alg, pgmat=pg, nprogeny=case["nprogeny"])
+            return "genic", cls.from_gmod(gmod=alg, pgmat=pg, nprogeny=case["nprogeny"], mem=mem)   # mem has no default there
+        return "genic", cls.from_algmod(algmod=alg, pgmat=pg, nprogeny=case["nprogeny"], mem=mem)
+    nm, npg = case["nmating"], case["nprogeny"]
+    if family == "pcvmat":
+        cls = PCVMAT[scheme]
+        if via == "cls_gmod":
+            return "pcvmat", cls.from_gmod(gmod=alg, pgmat=pg, ncross=nm, nprogeny=npg, nself=nself, gmapfn=gm)
+        return "pcvmat", cls.from_algmod(algmod=alg, pgmat=pg, ncross=nm, nprogeny=npg, nself=nself, gmapfn=gm, mem=mem)
+    cls = VMAT[scheme]
+    if via == "fcty_gmod_plain":
+        return "vmat", fcty.from_gmod(alg, pg, nm, npg, nself, gm)
+    if via == "fcty_gmod_mem":
+        return "vmat", fcty.from_gmod(gmod=alg, pgmat=pg, ncross=nm, nprogeny=npg, nself=nself, gmapfn=gm, mem=mem)
+    if via == "fcty_algmod":
+        return "vmat", fcty.from_algmod(algmod=alg, pgmat=pg, ncross=nm, nprogeny=npg, nself=nself, gmapfn=gm, mem=mem)
+    if via == "cls_gmod":
+        return "vmat", cls.from_gmod(gmod=alg, pgmat=pg, nmating=nm, nprogeny=npg, nself=nself, gmapfn=gm)
+    return "vmat", cls.from_algmod(algmod=alg, pgmat=pg, nmating=nm, nprogeny=npg, nself=nself, gmapfn=gm, mem=mem)
+
+
+def _reuse_verify(ctx, scheme, kind, obj, b, nself, where):
+    """every entry of a freshly requested matrix vs. the enumeration for the inputs as they are NOW; returns the
+    enumerated diagonals (n^k, t)"""
+    k = NPARENT[scheme]
+    cls = {"vmat": VMAT, "pcvmat": PCVMAT, "genic": GENIC}[kind][scheme]
+    ctx.check(type(obj) is cls, "reuse.result.type", lambda: "%s, expected %s%s" % (type(obj).__name__, cls.__name__, where))
+    shape = (b.n,) * k + ((b.t, b.t) if kind == "pcvmat" else (b.t,))
+    okshape = obj.mat.shape == shape
+    ctx.check(okshape, "reuse.result.shape", lambda: "%s, expected %s for the parents now in the genotype matrix%s" % (obj.mat.shape, shape, where))
+    ctx.check(_same_labels(obj.taxa, b.taxa) and _same_labels(obj.taxa_grp, b.taxa_grp), "reuse.labels.taxa",
+              lambda: "matrix taxa %r / %r, parents %r / %r%s" % (obj.taxa, obj.taxa_grp, b.taxa, b.taxa_grp, where))
+    if not (kind != "genic" and scheme != "two" and b.trait is not None and ctx.known(K_TRAIT, True)):
+        ctx.check(_same_labels(obj.trait, b.trait), "reuse.labels.trait", lambda: "%r vs model %r%s" % (obj.trait, b.trait, where))
+    refs = []
+    for tup in itertools.product(range(b.n), repeat=k):
+        slots = P.scheme_slots(scheme, b.geno, tup)
+        ref = P.genic_cov(scheme, slots, b.u) if kind == "genic" else P.progeny_cov(scheme, slots, b.u, b.rmat, nself)
+        refs.append(numpy.diag(ref))
+        if not okshape:
+            continue
+        got = _entry(obj.mat, tup, kind, b.t)
+        if kind == "genic":
+            if tup[-1] == tup[-2] and ctx.known(K_GENIC_DIAG, True):
+                continue
+        elif _rep(scheme, tup) and _has_variance(ref, b.S) and ctx.known(K_DIAG, True):
+            continue
+        ctx.check(_cmp(got, ref, b.S, kind), "reuse.value",
+                  lambda: "%s %s%s nself=%s: got %s, enumeration for the current parents and effects %s%s" % (
+                      kind, scheme, list(tup), nself, got.tolist(), ref.tolist(), where))
+    return numpy.array(refs)
+
+
+def check_reuse(case, ctx):
+    scheme, family = case["scheme"], case["family"]
+    b0 = build(case)
+    pg, alg = b0.pgmat, b0.algmod
+    gm = HaldaneMapFunction()
+    fcty = None
+    if family == "vmat":
+        fcty = FCTY[scheme]()
+    elif family == "genic" and scheme == "two":
+        fcty = DenseTwoWayDHAdditiveGenicVarianceMatrixFactory()
+    st_ = {"nself": _inf(case["nself"])}
+    k = NPARENT[scheme]
+    ctx.label("scheme=%s" % scheme)
+    ctx.label("family=%s" % family)
+    hist = []
+    last = {}            # via -> (epoch, nself, taxa names, matrix copy, enumerated diagonals)
+    epoch = 0
+    nontriv = False
+    for r, rnd in enumerate(case["rounds"]):
+        for op in rnd["mods"]:
+            eff = _apply_mod(op, pg, alg, scheme, st_)
+            hist.append(op[0])
+            ctx.label("mod=%s" % op[0])
+            if eff == "value":
+                epoch += 1
+        via, nself, mem = rnd["via"], st_["nself"], rnd["mem"]
+        uniq = bool(case["unique_parents"]) and pg.mat.shape[1] >= k
+        if via == "uc" and nself == math.inf:
+            via = "fcty_gmod_plain"
+        b = _snapshot(pg, alg)
+        hist.append("<%s>" % via)
+        where = "   [history on the same objects: %s]" % " ".join(hist)
+        ctx.label("via=%s" % via)
+        try:
+            if via == "uc":
+                made = _uc_problem(scheme, b, fcty, gm, case["problem"], uniq, case["nmating"], case["nprogeny"], nself,
+                                   case["upper_percentile"])
+            else:
+                kind, obj = _reuse_call(via, family, scheme, pg, alg, fcty, gm, case, nself, mem)
+        except (IndexError, ValueError) as e:
+            ctx.fail("reuse.construct.raises", "%s %s raised %r%s" % (family, scheme, e, where))
+            return
+        a = _snapshot(pg, alg)
+        ctx.check(numpy.array_equal(a.geno, b.geno) and numpy.array_equal(a.u, b.u) and numpy.array_equal(a.genpos, b.genpos)
+                  and _same_labels(a.taxa, b.taxa), "reuse.inputs_mutated", lambda: "inputs changed by the call%s" % where)
+        if via == "uc":
+            _uc_verify(ctx, scheme, b, made[0], made[1], nself, case["upper_percentile"], b.beta, pre="reuse.", where=where)
+            refs = numpy.array([numpy.diag(P.progeny_cov(scheme, P.scheme_slots(scheme, b.geno, tup), b.u, b.rmat, nself))
+                                for tup in itertools.product(range(b.n), repeat=k)])
+            mat = None
+        else:
+            refs = _reuse_verify(ctx, scheme, kind, obj, b, nself, where)
+            mat = numpy.array(obj.mat, copy=True)
+        if via in last:
+            ep0, nself0, taxa0, mat0, refs0, beta0 = last[via]
+            changed = refs0.shape != refs.shape or bool((numpy.abs(refs0 - refs) > 1e-9 * (1.0 + numpy.abs(refs))).any())
+            changed = changed or (via == "uc" and beta0 != b.beta)
+            ctx.label("same_entry_point_again_expected_matrix_changed", changed)
+            ctx.label("same_entry_point_again_%s" % via, changed)
+            nontriv = nontriv or changed
+            # equivariance on the SAME object: only the order of the taxa changed since the previous request
+            if (ep0 == epoch and nself0 == nself and mat is not None and mat0 is not None and taxa0 is not None
+                    and b.taxa is not None and mat.shape == mat0.shape):
+                names0 = list(taxa0)
+                src = [names0.index(x) for x in b.taxa.tolist()]
+                ix = numpy.ix_(*([src] * k))
+                tolS = RTOL * (b.S if kind == "pcvmat" else numpy.diag(b.S)) + ATOL
+                ctx.check(bool((numpy.abs(mat - mat0[ix]) <= tolS).all()), "reuse.taxa.equivariance",
+                          lambda: "max |diff| %g%s" % (numpy.abs(mat - mat0[ix]).max(), where))
+                ctx.label("equivariance_on_same_object", src != sorted(src))
+        last[via] = (epoch, nself, None if b.taxa is None else b.taxa.tolist(), mat, refs, b.beta)
     ctx.nontrivial(nontriv)
 
 
@@ -743,6 +1052,14 @@ SUBCHECKS = [
              rule="UC problems (subset/real/binary/integer) on the four factories, unique and repeated parents; "
                   "non-trivial = selection intensity > 0 and a cross with linked informative markers",
              required_labels=("unique_parents=False", "unique_parents=True", "segregating_cross_with_zero_variance")),
+    SubCheck("reuse", check_reuse, reuse_case(), quick=150, thorough=1500, shards_quick=4,
+             rule="ONE factory instance, ONE map function, ONE model and ONE genotype-matrix object serve 2-4 requests "
+                  "(factory.from_gmod positional / with mem / from_algmod, class from_gmod / from_algmod, UC problem); between "
+                  "requests the objects are changed through public setters and in-place methods (u_a, beta, mat, vrnt_genpos, "
+                  "reorder/sort/group/remove taxa, array writes, nself); every answer is compared with the enumeration for the "
+                  "objects' current content; non-trivial = the same entry point is used again after the expected matrix changed",
+             required_labels=("same_entry_point_again_fcty_gmod_plain", "same_entry_point_again_uc", "via=fcty_algmod",
+                              "via=cls_gmod", "equivariance_on_same_object", "family=genic", "family=pcvmat")),
     SubCheck("util", check_util, util_case(), quick=500, thorough=5000, shards_quick=1,
              rule="linkage-decay helpers on scalar/array r, all depths; non-trivial = some 0 < r < 1/2",
              required_labels=("nself=inf", "intermating")),
